@@ -386,9 +386,26 @@ func (x *c15) run(rng *rand.Rand, caseNo int) {
 		// exact ties (two expiries, or a teardown and an expiry, in the same instant) are out of scope
 		// here: C18 explores them for crashes only. Step aside if the teardown instant would tie.
 		tie := func(at time.Time) bool {
-			for _, e := range h.upcoming() {
-				if e.what != "alloc" || e.c != v {
-					if d := e.at.Sub(at); d > -1500*time.Millisecond && d < 1500*time.Millisecond {
+			near := func(e time.Time) bool {
+				d := e.Sub(at)
+
+				return d > -1500*time.Millisecond && d < 1500*time.Millisecond
+			}
+			for _, cl := range h.clients {
+				al, st := m.Alloc(cl)
+				if al == nil || st == sim.Dead {
+					continue
+				}
+				if cl != v && near(al.Exp) {
+					return true
+				}
+				for _, e := range al.Perms {
+					if near(e) {
+						return true
+					}
+				}
+				for _, ch := range al.Chans {
+					if near(ch.Exp) {
 						return true
 					}
 				}
